@@ -228,6 +228,7 @@ inductive Adapt where
 
 inductive Hint where
   | exact | inexact | unbounded
+  | fixed (k : Nat)      -- claims exactly `k` elements whatever the script holds
   deriving Repr, DecidableEq, Inhabited
 
 inductive OwnerOp where
